@@ -180,6 +180,7 @@ func main() {
 			"operands are well-formed for the scheme (metadata flags as produced by the constructors, scales units mod t for BGV); content is arbitrary (pseudo-random residues): the operations are algebraic in the residues",
 			"which struct fields are scratch memory is decided by field name (buf*/tmp*/pool*, ckks Encoder.bigintCoeffs); rings, parameters, keys, samplers and PRNGs are never overwritten",
 			"a ciphertext result is compared as the polynomial it denotes: trailing all-zero components are ignored, memory beyond the result's degree/level is not part of the result",
+			"aliasing = the same object: the output itself or its .El() (the embedded element) passed as an operand; a second header on the same polynomials (c := *ct; &c) or the ct.Plaintext() view is a different object sharing memory: such calls are executed and their divergences counted (bucket memory-alias-through-distinct-header) but not judged",
 			"an error is an admissible answer to an aliased call or to an output object of unsuitable shape; it is not admissible as an effect of receiver history",
 			"receivers owning a PRNG (encryptor, key generator, protocols) are compared under identical seeds and only with residue histories (previous calls legitimately advance the PRNG)",
 			"doc-comment classification (designated output, documented in-place arguments) is transcribed by hand in the table (trusted base)",
